@@ -5,6 +5,7 @@ import (
 	"reflect"
 	"sort"
 	"strings"
+	"unicode"
 	"unicode/utf8"
 
 	flags "github.com/jessevdk/go-flags"
@@ -27,16 +28,46 @@ func markDecl(g *gen, sd *StructDesc) {
 				}
 			}
 			if g.chance(0.85) {
-				out = append(out, quoteTag("description", "desc-of-"+f.Name+"-end "+genText(g.r, 4, 0.2)))
+				extra := ""
+				if g.chance(0.25) {
+					// (a description is text, not a format)
+					extra = []string{"at most 100% of %d items ", "%s ", "50%", "%!v %v ", "%%"}[g.r.Intn(5)]
+				}
+				out = append(out, quoteTag("description", "desc-of-"+f.Name+"-end "+extra+genText(g.r, 4, 0.2)))
 			}
 			if strings.Contains(f.Tag, "default-mask:") && !isBoolCode(f.Ty) && f.Ty[0] != 'F' {
 				out = append(out, quoteTag("default", "SECRET"+f.Name+"X"))
 			}
 			f.Tag = strings.Join(out, " ")
+		} else if f.Sub != nil && strings.Contains(f.Tag, "positional-args") {
+			// positional arguments: some described (by a marker), some not, in any order
+			for si := range f.Sub.Fields {
+				sf := &f.Sub.Fields[si]
+				var out []string
+				for _, t := range splitTagPairs(sf.Tag) {
+					if !strings.HasPrefix(t, "description:") {
+						out = append(out, t)
+					}
+				}
+				if g.chance(0.5) {
+					out = append(out, quoteTag("description", "argdesc-of-"+sf.Name+"-end"))
+				}
+				sf.Tag = strings.Join(out, " ")
+			}
 		} else if f.Sub != nil {
 			markDecl(g, f.Sub)
 		}
 	}
+}
+
+// squashAll removes every white-space character and hyphen
+func squashAll(s string) string {
+	return strings.Map(func(r rune) rune {
+		if unicode.IsSpace(r) || r == '-' {
+			return -1
+		}
+		return r
+	}, s)
 }
 
 // splitTagPairs splits a generated tag (key:"quoted value" pairs separated by blanks).
@@ -198,12 +229,53 @@ func scanInterface(c *Ctx, cr *CaseResult, which, text string, vis, hid []*flags
 				c.Check("description-is-shown", false, "C16:description-missing", in(o), "absent: "+markerOf(o), "shown")
 			}
 		}
+		if which == "help" && o.Description != "" && utf8.ValidString(o.Description) {
+			// the words of the description in their order, and beside them the default (or its mask)
+			want := squashAll(o.Description)
+			switch {
+			case o.DefaultMask != "" && o.DefaultMask != "-":
+				want += "(default:" + squashAll(o.DefaultMask) + ")"
+			case o.DefaultMask == "" && strings.Join(o.Default, "") != "":
+				want += "(default:"
+			}
+			if !strings.Contains(squashAll(text), want) {
+				m := in(o)
+				if at := strings.Index(text, markerOf(o)); at >= 0 {
+					end := at + 200
+					if end > len(text) {
+						end = len(text)
+					}
+					m["help_excerpt"] = text[at:end]
+				}
+				m["declared_default"] = o.Default
+				m["declared_default_mask"] = o.DefaultMask
+				c.Check("description-and-default-are-shown-as-declared", false, "C16:description-garbled", m, "absent (blanks and hyphens apart): "+want, "shown")
+			} else {
+				c.Check("description-and-default-are-shown-as-declared", true, "", nil, "", "")
+			}
+		}
 		if o.DefaultMask != "" {
 			secret := "SECRET" + o.Field().Name + "X"
 			if strings.Contains(squash(text), secret) {
 				c.Check("masked-default-never-appears", false, "C16:masked-default-leaks", in(o), "contains "+secret, "mask only")
 			} else {
 				c.Check("masked-default-never-appears", true, "", nil, "", "")
+			}
+		}
+	}
+	if which == "help" {
+		// every described positional argument of the active chain
+		for cmd := cr.Real.p.Command; cmd != nil; cmd = cmd.Active {
+			for _, a := range cmd.Args() {
+				if !strings.HasPrefix(a.Description, "argdesc-of-") {
+					continue
+				}
+				ok := strings.Contains(squash(text), squash(a.Description))
+				inA := map[string]interface{}{"case": cr.Case.Description, "generator": which, "command": cmd.Name, "argument": a.Name}
+				if !ok {
+					inA["case_file"] = c.saveCase(cr)
+				}
+				c.Check("described-positional-argument-is-listed", ok, "C16:argument-missing", inA, "absent: "+a.Description, "listed")
 			}
 		}
 	}
@@ -226,6 +298,15 @@ func checkC17Help(c *Ctx, n int) {
 	for i := 0; i < n; i++ {
 		g := &gen{r: c.Rng, p: p}
 		cs := g.genCase()
+		marked := g.chance(0.5)
+		if marked {
+			// every description starts with a marker: the layout can be measured in the text itself
+			for bi := range cs.Build {
+				if cs.Build[bi].Struct != nil {
+					markDecl(g, cs.Build[bi].Struct)
+				}
+			}
+		}
 		g.addProgrammatic(cs)
 		real, _ := BuildReal(cs)
 		if real.dead {
@@ -261,8 +342,73 @@ func checkC17Help(c *Ctx, n int) {
 				} else {
 					c.Check("help-is-valid-utf8", true, "", nil, "", "")
 				}
+				if marked && cr.Real != nil && !cr.Real.dead && validIn && declIsValidUtf8(cs) {
+					layoutOracle(c, cr, help, cols)
+				}
 			}
 		})
+	}
+}
+
+// layoutOracle (C17), on declarations whose descriptions start with a marker: all descriptions start
+// in one column; the words of every description are there in their order; where at least 10 columns
+// remain beside the option column no description line is wider than the terminal.
+func layoutOracle(c *Ctx, cr *CaseResult, help string, cols int) {
+	vis, _ := visibleOptionsHelp(cr.Real)
+	lines := strings.Split(help, "\n")
+	in := map[string]interface{}{"case": cr.Case.Description, "cols": cols}
+	fail := func(name, key, got, want string) {
+		in["case_file"] = c.saveCase(cr)
+		c.Check(name, false, key, in, got, want)
+	}
+	// the column of every description (where its marker is whole on one line)
+	column := -1
+	for _, o := range vis {
+		if !strings.Contains(o.Description, markerOf(o)) {
+			continue
+		}
+		for _, l := range lines {
+			at := strings.Index(l, markerOf(o))
+			if at < 0 {
+				continue
+			}
+			col := utf8.RuneCountInString(l[:at])
+			if column >= 0 && col != column {
+				fail("descriptions-start-in-one-column", "C17:column", fmt.Sprintf("description of %s starts in column %d, another one in column %d", o.String(), col, column), "one common column")
+				return
+			}
+			column = col
+			break
+		}
+	}
+	c.Check("descriptions-start-in-one-column", true, "", nil, "", "")
+	for _, o := range vis {
+		if o.Description == "" {
+			continue
+		}
+		if !strings.Contains(squashAll(help), squashAll(o.Description)) {
+			in["option"] = o.String()
+			fail("description-words-are-kept-in-order", "C17:words", "absent (blanks and hyphens apart): "+squashAll(o.Description), "the words of the description in their order")
+			return
+		}
+	}
+	c.Check("description-words-are-kept-in-order", true, "", nil, "", "")
+	if column >= 0 && cols-column >= 10 {
+		// description lines: the rows that carry a marker and the continuation lines indented to the column
+		indent := strings.Repeat(" ", column)
+		for _, l := range lines {
+			isDesc := strings.HasPrefix(l, indent) && column > 0
+			for _, o := range vis {
+				if strings.Contains(l, markerOf(o)) {
+					isDesc = true
+				}
+			}
+			if isDesc && utf8.RuneCountInString(l) > cols {
+				fail("no-description-line-is-wider-than-the-terminal", "C17:width", fmt.Sprintf("a line of %d characters: %q", utf8.RuneCountInString(l), l), fmt.Sprintf("at most %d", cols))
+				return
+			}
+		}
+		c.Check("no-description-line-is-wider-than-the-terminal", true, "", nil, "", "")
 	}
 }
 
